@@ -2,6 +2,7 @@ import Resolvo.Drv.Parse
 import Resolvo.Oracles
 import Resolvo.Drv.Trace
 import Resolvo.Graph
+import Resolvo.MDet.Solve
 /-! Driver for the solver families: evaluates the oracles on the implementation's outputs. -/
 namespace Resolvo.Drv
 open Resolvo
@@ -145,6 +146,44 @@ def oracleSolve (U : Universe) (P : Problem) (cfg : String) (r : ImplSolve) : Li
       else []
     ls ++ d ++ c
 
+def parseF32 (s : String) : Float32 :=
+  match s.splitOn "." with
+  | [i] => Float32.ofNat (nat! i)
+  | [i, f] => Float32.ofScientific (nat! (i ++ f)) true f.length
+  | _ => 0
+
+/-- initial MDet solver state from the `config` line -/
+def mdetInit (cfg : String) : Resolvo.MDet.S :=
+  let c := cfgGet cfg "cancel"
+  let act := cfgGet cfg "activity"
+  let s0 : Resolvo.MDet.S := { cancelAt := c.toNat?, cancelTransient := cfgGet cfg "transient" == "1" }
+  match act.splitOn ":" with
+  | [a, d] => { s0 with activityAdd := parseF32 a, activityDecay := parseF32 d }
+  | _ => s0
+
+/-- Exact correspondence: the model's observations of one solve vs the implementation's. -/
+def mdetCompare (o : Resolvo.MDet.Outcome) (newLog : List String) (newTrace : List String) (r : ImplSolve) : List String :=
+  let (mres, msol, mconf) : String × List Nat × List Nat := match o with
+    | .ok sol => ("ok", sol, [])
+    | .unsat c => ("unsat", [], c)
+    | .stop (.cancelled v) => (s!"cancelled {v}", [], [])
+    | .stop (.panic site) => (s!"panic {site}", [], [])
+    | .stop .outOfFuel => ("out-of-fuel", [], [])
+  let ires := if r.result == "cancelled" then s!"cancelled {r.resultArg}" else r.result
+  let mresCmp := if mres.startsWith "panic" then "panic" else mres
+  if o matches .stop .outOfFuel then ["oracle-fail C04 mdet-fuel: the model ran out of fuel on this case"]
+  else if ires != mresCmp then [s!"oracle-fail C01,C02,C04,C05,C06,C07,C08,C09,C12,C14,C15 mdet-result: implementation `{ires}` model `{mres}`"]
+  else if msol != r.solution then [s!"oracle-fail C01,C05,C06,C07,C08,C14 mdet-solution: implementation [{natList r.solution}] model [{natList msol}]"]
+  else if newLog != r.calls then
+    let k := ((newLog.zip r.calls).takeWhile (fun p => p.1 == p.2)).length
+    [s!"oracle-fail C09,C12,C13 mdet-calls: provider call log differs at position {k}: implementation `{r.calls.getD k "<end>"}` model `{newLog.getD k "<end>"}`"]
+  else if mres.startsWith "panic" then []
+  else if newTrace != r.trace then
+    let k := ((newTrace.zip r.trace).takeWhile (fun p => p.1 == p.2)).length
+    [s!"oracle-fail C01,C02,C03,C05,C06,C14,C15 mdet-trace: solver history differs at event {k}: implementation `{r.trace.getD k "<end>"}` model `{newTrace.getD k "<end>"}`"]
+  else if mconf != r.conflictClauses then [s!"oracle-fail C03,C06 mdet-conflict-clauses: implementation [{natList r.conflictClauses}] model [{natList mconf}]"]
+  else ["info mdet-exact 1"]
+
 def runSolve (lines : List String) : List String :=
   let caseLines := lines.filter (fun l => !l.startsWith "> ")
   let implLines := (lines.filter (fun l => l.startsWith "> ")).map (fun l => (l.drop 2).toString)
@@ -154,10 +193,18 @@ def runSolve (lines : List String) : List String :=
   if !wfB U then ["info not-wf"]
   else
     let impls := parseImpl implLines
-    let rec go (ps : List Problem) (is : List ImplSolve) (k : Nat) (acc : List String) : List String :=
+    let sync := cfgGet cfg "mode" == "sync" && cfgGet cfg "sortpeeks" != "1"
+    let rec go (ps : List Problem) (is : List ImplSolve) (k : Nat) (ms : Resolvo.MDet.S) (acc : List String) : List String :=
       match ps, is with
-      | p :: ps', i :: is' => go ps' is' (k + 1) (acc ++ [s!"solve {k}"] ++ oracleSolve U p cfg i)
+      | p :: ps', i :: is' =>
+        let md := if sync then
+            let fuel := 400 + 40 * (U.solvs.length + U.vsets.length) * (U.solvs.length + 4)
+            let (o, ms') := Resolvo.MDet.solveRun U p fuel { ms with trace := [] }
+            let newLog := (ms'.log.take (ms'.log.length - ms.log.length)).reverse
+            (mdetCompare o newLog ms'.trace.reverse i, ms')
+          else ([], ms)
+        go ps' is' (k + 1) md.2 (acc ++ [s!"solve {k}"] ++ oracleSolve U p cfg i ++ md.1)
       | _, _ => acc
-    go probs impls 0 []
+    go probs impls 0 (mdetInit cfg) []
 
 end Resolvo.Drv
